@@ -114,7 +114,8 @@ def audit(prop):
     out = r.stdout
     res = {}
     # "'name' depends on axioms: [a, b]" or "'name' does not depend on any axioms"
-    for m in re.finditer(r"'([^']+)' (does not depend on any axioms|depends on axioms: \[([^\]]*)\])", out, flags=re.S):
+    # (a theorem name may itself end in primes: the name is everything between the first quote of the line and the last "' ")
+    for m in re.finditer(r"^'([^\n]+?)' (does not depend on any axioms|depends on axioms: \[([^\]]*)\])", out, flags=re.S | re.M):
         full = m.group(1); axs = [] if m.group(3) is None else [a.strip() for a in m.group(3).replace("\n", " ").split(",") if a.strip()]
         res[full] = axs
     bad = {n: a for n, a in res.items() if not set(a) <= ALLOWED_AXIOMS}
